@@ -1,23 +1,169 @@
 package engine
 
 import (
+	"strings"
 	"testing"
 
 	"verifsim/model"
 	"verifsim/sdl"
 )
 
+func param(job *Job, name string, def float64) float64 {
+	if v, ok := job.Params[name]; ok {
+		return v
+	}
+	return def
+}
+
+// faultSpec replays the schedule of a discovery run with the given faults armed.
+func faultSpec(disc SpecData, o *model.Obs, faults ...string) SpecData {
+	s := disc
+	s.Replay = true
+	s.Picks = o.Picks
+	s.Faults = faults
+	return s
+}
+
 func protocolMore(t *testing.T, bind *Binding, job *Job, p *sdl.Program, acc *statAcc, w *model.World, out *model.Outcome, do func(SpecData) *model.Obs) {
+	switch job.Property {
+	case "C05", "C12":
+		for _, s := range sweepSpecs(p, job, SpecData{}) {
+			do(s)
+		}
+	case "C13":
+		specs := sweepSpecs(p, job, SpecData{})
+		for i, s := range specs {
+			o := do(s)
+			if i > 2 || !o.OK() {
+				continue
+			}
+			// every runner in turn fails (exhaustive per explored schedule)
+			for _, site := range o.Sites {
+				if strings.HasPrefix(site, "run:") {
+					do(faultSpec(s, o, site))
+				}
+			}
+		}
+	case "C09":
+		specs := sweepSpecs(p, job, SpecData{})
+		nSched := int(param(job, "faultSchedules", 2))
+		for i, s := range specs {
+			o := do(s)
+			if i >= nSched {
+				continue
+			}
+			sites := dedupStrings(o.Sites)
+			for _, site := range sites {
+				if strings.HasPrefix(site, "close:") {
+					continue
+				}
+				do(faultSpec(s, o, site))
+			}
+			// sampled pairs (two faults can only both fire where callbacks run concurrently or
+			// the first is swallowed; the second must then still be reported)
+			npairs := int(param(job, "faultPairs", 4))
+			for k := 0; k < npairs && len(sites) >= 2; k++ {
+				a := sites[int(mix(p.Seed, uint64(k*2+i))%uint64(len(sites)))]
+				b := sites[int(mix(p.Seed, uint64(k*2+1+i*7))%uint64(len(sites)))]
+				if a != b {
+					do(faultSpec(s, o, a, b))
+				}
+			}
+		}
+	case "C04":
+		specs := sweepSpecs(p, job, SpecData{Lookups: true})
+		nSched := int(param(job, "faultSchedules", 2))
+		for i, s := range specs {
+			o := do(s)
+			if i >= nSched {
+				continue
+			}
+			s2 := s
+			s2.Lookups = false
+			s2.Continue = true
+			for j, site := range dedupStrings(o.Sites) {
+				if strings.HasPrefix(site, "close:") || strings.HasPrefix(site, "run:") {
+					continue
+				}
+				fs := faultSpec(s2, o, site)
+				fs.ClearFaults = j%2 == 0 // transient vs permanent failure
+				if !fs.ClearFaults {
+					// permanent: every occurrence of that callback fails
+					fs.Faults = []string{site[:strings.LastIndexByte(site, '#')] + "#*"}
+				}
+				do(fs)
+			}
+		}
+	}
+}
+
+func dedupStrings(xs []string) []string {
+	seen := map[string]bool{}
+	var out []string
+	for _, x := range xs {
+		if !seen[x] {
+			seen[x] = true
+			out = append(out, x)
+		}
+	}
+	return out
 }
 
 func nonTrivialMore(prop string, w *model.World, out *model.Outcome, o *model.Obs) bool {
+	switch prop {
+	case "C05":
+		// a component with >= 1 dependency and an Init, or a lazy component, was created
+		n := 0
+		for _, e := range o.Events {
+			if e.Kind == "init" {
+				n++
+			}
+		}
+		return n >= 2
+	case "C12":
+		return len(w.P.Procs) >= 2 || countKind(o, "run") >= 2 || countKind(o, "load") >= 2
+	case "C13":
+		return countKind(o, "run") >= 1
+	case "C09":
+		return len(o.Fired) != 0 || out.Verdict == model.MustFail
+	case "C04":
+		if len(o.Faults) != 0 {
+			return len(o.Fired) != 0
+		}
+		for _, c := range o.Reg {
+			if c.Op == "ef" {
+				return true
+			}
+		}
+		return false
+	}
 	return len(o.Reg) > 0
 }
 
+func countKind(o *model.Obs, kind string) int {
+	n := 0
+	for _, e := range o.Events {
+		if e.Kind == kind {
+			n++
+		}
+	}
+	return n
+}
+
+// checkOther runs the engines that need no generated program; it reports true when the
+// job is completely handled.
 func checkOther(t *testing.T, bind *Binding, job *Job, res *Result, acc *statAcc) bool {
+	switch job.Property {
+	case "C04":
+		regsimBatch(job, int(param(job, "regsimTrees", 30)), acc, res)
+	}
 	return false
 }
 
 func replayOther(t *testing.T, bind *Binding, c *Case, job *Job) []model.Violation {
+	switch c.Engine {
+	case "regsim":
+		return replayRegsim(c)
+	}
 	return nil
 }
